@@ -637,7 +637,7 @@ func (l Letter) BuildLogs() plog.Logs {
 
 // ---- metrics ---------------------------------------------------------------------
 
-const NumMetric = 50
+const NumMetric = 51
 
 func exemplar(e pmetric.Exemplar, kind int) {
 	switch kind {
@@ -875,6 +875,21 @@ func fillMetric(i int, m pmetric.Metric) {
 			dp := g.DataPoints().AppendEmpty()
 			dp.SetIntValue(int64(k))
 			fillAttrs(7, dp.Attributes())
+		}
+	case 50: // summary with quantiles in descending order, two points
+		sm := m.SetEmptySummary()
+		for k := 0; k < 2; k++ {
+			dp := sm.DataPoints().AppendEmpty()
+			dp.SetCount(uint64(k + 1))
+			q := dp.QuantileValues().AppendEmpty()
+			q.SetQuantile(0.99)
+			q.SetValue(9)
+			q = dp.QuantileValues().AppendEmpty()
+			q.SetQuantile(0.5)
+			q.SetValue(5)
+			q = dp.QuantileValues().AppendEmpty()
+			q.SetQuantile(0.9)
+			q.SetValue(7)
 		}
 	case 47: // exp histogram mirror of 41: same exemplar attribute value types as the histogram's
 		h := m.SetEmptyExponentialHistogram()
